@@ -106,6 +106,10 @@ func (s *Sim) runTX(res *Result, horizon time.Duration) {
 					}
 					w.Log("tx", "cb", nil, fmt.Sprint(data), d)
 					sample("cb")
+					if tx.CbSleepNs > 0 {
+						time.Sleep(time.Duration(tx.CbSleepNs))
+						simrt.Resume("harness/tx-cb-slept")
+					}
 					if tx.CallbackFailAt > 0 && ncb == tx.CallbackFailAt {
 						return errTXCallback
 					}
